@@ -240,7 +240,7 @@ void _mzd_apply_p_right_even(mzd_t *A, mzp_t const *P, rci_t start_row, rci_t st
       }
     }
     /* here we actually write out the permutation */
-    mzd_write_col_to_rows_blockd(A, B, permutation, write_mask, i, i + step_size, length);
+    mzd_write_col_to_rows_blockd(A, B, permutation, write_mask, i, i + step_size, A->ncols);
   }
   m4ri_mm_free(permutation);
   m4ri_mm_free(write_mask);
